@@ -47,7 +47,7 @@ Fixed(f) == f \in FIXED
 
 \* ---- options: setup-relevant (ext, fmg, L, take, caches) and solve-relevant (maxIter, absOn, relOn, fmgIts)
 OptNames == {"ext", "fmg", "L", "take", "caches", "maxIter", "absOn", "relOn", "exact", "misc", "grid"}
-Dom(o) == CASE o = "ext" -> ExtDom [] o = "L" -> LDom [] o = "maxIter" -> MaxIterDom [] o = "misc" -> MiscDom [] o = "grid" -> {0, 1}
+Dom(o) == CASE o = "ext" -> ExtDom [] o = "L" -> LDom \cup {0} [] o = "maxIter" -> MaxIterDom [] o = "misc" -> MiscDom [] o = "grid" -> {0, 1}
             [] OTHER -> BOOLEAN
 \* "grid": the problem size (divideBy2 refinements of the finest grid), as changed by the refinement loop of convergence_order.cpp
 SetupRelevant == {"ext", "fmg", "L", "take", "caches", "grid"}
@@ -56,14 +56,15 @@ InitOpts == [ext |-> 0, fmg |-> FALSE, L |-> CHOOSE l \in LDom : TRUE, take |-> 
              maxIter |-> CHOOSE m \in MaxIterDom : m > 0, absOn |-> TRUE, relOn |-> TRUE, exact |-> TRUE,
              misc |-> CHOOSE m \in MiscDom : TRUE, grid |-> 0]
 
-NoLevels == [valid |-> FALSE, ext |-> 0, fmg |-> FALSE, L |-> 0, take |-> FALSE, caches |-> TRUE, grid |-> 0]
-BuiltOf(o) == [valid |-> TRUE, ext |-> o.ext, fmg |-> o.fmg, L |-> o.L, take |-> o.take, caches |-> o.caches, grid |-> o.grid]
+NoLevels == [valid |-> FALSE, ext |-> 0, fmg |-> FALSE, L |-> 0, take |-> FALSE, caches |-> TRUE, grid |-> 0, lv |-> 0]
+\* L = the level cap as the user set it (0 = automatic: as many levels as the grid admits); lv = the number of levels setup() built
+BuiltOf(o) == [valid |-> TRUE, ext |-> o.ext, fmg |-> o.fmg, L |-> o.L, take |-> o.take, caches |-> o.caches, grid |-> o.grid, lv |-> 0]
 
 \* documented rejection rule of setup(): the take strategy needs both caches
 Rejected(o) == o.take /\ ~o.caches
 
 \* setup() was executed with the current values of the setup-relevant options
-UpToDate == built = BuiltOf(opts)
+UpToDate == [built EXCEPT !.lv = 0] = BuiltOf(opts)
 
 FgsOfSetup(e) == e \in {0, 2, 3}     \* setup.cpp: NONE / FULL_GRID / COMBINED start with full grid smoothing
 
@@ -100,7 +101,7 @@ SetupReject ==
 
 SetupBuild ==
   /\ pc = "idle" /\ calls < MaxCalls /\ ~Rejected(opts)
-  /\ built' = BuiltOf(opts)
+  /\ \E lv \in (IF opts.L = 0 THEN LDom ELSE {opts.L}) : built' = [BuiltOf(opts) EXCEPT !.lv = lv]
   /\ fgs' = FgsOfSetup(opts.ext)
   /\ start' = <<"fresh-vectors">>      \* new Levels: zero-initialised work vectors
   /\ calls' = calls + 1
@@ -117,16 +118,16 @@ SetupBuild ==
 \* strategy only AFTER initializeSolution(), so a second solve after a switch ran its FMG start-up with the stale mode
 StartMode(f) == IF opts.ext # 0 THEN f ELSE TRUE
 FgsAtStart == IF Fixed("F20") /\ opts.ext = 3 THEN TRUE ELSE fgs
-StartIdeal == IF opts.fmg THEN <<"fmg", built.L, StartMode(FgsOfSetup(opts.ext))>> ELSE <<"zero">>
+StartIdeal == IF opts.fmg THEN <<"fmg", built.lv, StartMode(FgsOfSetup(opts.ext))>> ELSE <<"zero">>
 StartCode ==
   IF ~opts.fmg THEN <<"zero">>
-  ELSE IF Fixed("F8") THEN <<"fmg", built.L, StartMode(FgsAtStart)>>
-  ELSE IF built.L = 2 THEN (IF start = <<"fresh-vectors">> THEN <<"zero">> ELSE <<"stale", sid>>)
-  ELSE <<"fmg-without-coarsest", built.L>>
+  ELSE IF Fixed("F8") THEN <<"fmg", built.lv, StartMode(FgsAtStart)>>
+  ELSE IF built.lv = 2 THEN (IF start = <<"fresh-vectors">> THEN <<"zero">> ELSE <<"stale", sid>>)
+  ELSE <<"fmg-without-coarsest", built.lv>>
 
 \* solve() checks that setup() built what the options now in effect need (coarse right-hand sides exist only for the
 \* extrapolation / FMG settings of the last setup()); otherwise it throws before touching anything (repair of F16)
-MissingRhs == ~built.valid \/ (opts.ext # 0 /\ built.ext = 0) \/ (opts.fmg /\ ~built.fmg /\ ~(built.L = 2 /\ built.ext # 0))
+MissingRhs == ~built.valid \/ (opts.ext # 0 /\ built.ext = 0) \/ (opts.fmg /\ ~built.fmg /\ ~(built.lv = 2 /\ built.ext # 0))
 SolveReject ==
   /\ pc = "idle" /\ calls < MaxCalls /\ MissingRhs
   /\ calls' = calls + 1 /\ justSolved' = FALSE
